@@ -160,6 +160,46 @@ def rule_R3_cells_body(text, fields, log):
     .f.borrow() -> (&..f) for the declared interior-mutability fields.  The
     receiver expression is the maximal dotted path that ends in .f"""
     out = text
+    renames = []
+    for f in fields:
+        # guard elision: `let mut g = PATH.f.borrow_mut();` -> g is an alias of the place PATH.f until the end of the
+        # enclosing block: drop the binding and write PATH.f for g (a RefCell guard does not restrict other uses of
+        # PATH; a `&mut` binding would).  `drop(g);` disappears with it.
+        pat = re.compile(r'let\s+(?:mut\s+)?([A-Za-z_]\w*)\s*=\s*((?:[A-Za-z_]\w*)(?:\.(?:[A-Za-z_]\w*|\d+))*)\.%s\.borrow_mut\(\)\s*;' % re.escape(f))
+        while True:
+            mask = code_mask(out)
+            mm = next((m for m in pat.finditer(out) if mask[m.start()]), None)
+            if not mm:
+                break
+            g, place = mm.group(1), '%s.%s' % (mm.group(2), f)
+            # end of the enclosing block
+            depth = 0
+            j = mm.end()
+            while j < len(out):
+                if mask[j]:
+                    if out[j] == '{':
+                        depth += 1
+                    elif out[j] == '}':
+                        if depth == 0:
+                            break
+                        depth -= 1
+                j += 1
+            seg = out[mm.end():j]
+            smask = mask[mm.end():j]
+            pieces = []
+            last = 0
+            for m2 in re.finditer(r'(?<![\w.])%s\b' % re.escape(g), seg):
+                if not smask[m2.start()]:
+                    continue
+                pieces.append(seg[last:m2.start()])
+                pieces.append(place)
+                last = m2.end()
+            pieces.append(seg[last:])
+            seg2 = ''.join(pieces)
+            seg2 = re.sub(r'\bdrop\(\s*%s\s*\)\s*;' % re.escape(place), '', seg2)
+            log.append(('R3', norm_ws(mm.group(0)), '<binding elided: %s stands for %s>' % (g, place), (g, place)))
+            out = out[:mm.start()] + _blank(mm.group(0)) + seg2 + out[j:]
+            renames.append((g, place))
     for f in fields:
         # get
         pat = re.compile(r'((?:\b[A-Za-z_][\w]*|\b\d+)(?:\.(?:[A-Za-z_]\w*|\d+))*)\.%s\.get\(\)' % re.escape(f))
@@ -583,6 +623,7 @@ class Unit(object):
                 text = rule_R15_or_pattern_ref_mut(text, log)
             if 'R17' in self.rules:
                 text = rule_R17_hashmap_entry(text, log)
+        self.last_guard_renames = [r[3] for r in log if len(r) > 3]
         for r in log:
             self.rule_log.append({'rule': r[0], 'before': r[1], 'after': r[2], 'where': ctx})
         return text
@@ -1110,7 +1151,12 @@ def emit_block(unit, loc, dlines, tmpl_where):
     for a, b in substs:
         # whitespace-insensitive match of the text to rename; an awaited expression may be renamed to a
         # parameter that stands for its (arbitrary) result (R8)
-        rx = re.compile(r'\s*'.join(re.escape(t) for t in a.split()))
+        # `$1`..`$9` in the text to rename stand for one simple argument (no comma / parenthesis); they may be used
+        # in the replacement
+        def _tok(t):
+            parts = re.split(r'(\$[1-9])', t)
+            return ''.join(('(?P<w%s>(?:[^,()]|\\([^()]*\\))+?)' % q[1]) if re.match(r'^\$[1-9]$', q) else re.escape(q) for q in parts)
+        rx = re.compile(r'\s*'.join(_tok(t) for t in a.split()))
         hits = list(rx.finditer(blk))
         if not hits:
             # nothing to rename: the block no longer mentions this expression (logged; the contract decides)
@@ -1118,7 +1164,8 @@ def emit_block(unit, loc, dlines, tmpl_where):
             continue
         for h in reversed(hits):
             pad = '\n' * blk[h.start():h.end()].count('\n')
-            blk = blk[:h.start()] + b + pad + blk[h.end():]
+            b_ = re.sub(r'\$([1-9])', lambda m_: h.group('w' + m_.group(1)).strip(), b)
+            blk = blk[:h.start()] + b_ + pad + blk[h.end():]
         unit.rule_log.append({'rule': 'R8' if 'await' in a else 'R9', 'before': norm_ws(a)[:100], 'after': b, 'where': '%s block %s' % (rel, name)})
     bm = code_mask(blk)
     code_only = ''.join(c if bm[k] else ' ' for k, c in enumerate(blk))
@@ -1229,6 +1276,18 @@ def emit_fn_text(unit, rel, path, fn_id, text, line0, end_line, dlines, tmpl_whe
         a0 = re.match(r'(\s*#\s*\[[^\]]*\]\s*|\s*///[^\n]*\n)*', text).end()
         text = _blank(text[:a0]) + text[a0:]
     text = unit.rewrite(text, ctx)
+    guard_renames = list(unit.last_guard_renames)
+    if guard_renames:
+        # the proof aids (hints, invariants and their anchors) name the elided guard: same renaming
+        def _ren(t):
+            for g_, place_ in guard_renames:
+                t = re.sub(r'(?<![\w.])%s\b' % re.escape(g_), place_, t)
+            return t
+        for sec in sections:
+            if sec[0] in ('loop', 'before', 'after', 'atstart', 'atend'):
+                sec[2] = [_ren(l) for l in sec[2]]
+                if sec[0] in ('before', 'after'):
+                    sec[1] = (_ren(sec[1][0]), sec[1][1])
     for sec in sections:
         if sec[0] == 'desugar_q':
             # R12: `E?` -> match E { Ok(v) => v, Err(e) => return Err(From::from(e)) }  (definition of `?`)
@@ -1315,8 +1374,12 @@ def emit_fn_text(unit, rel, path, fn_id, text, line0, end_line, dlines, tmpl_whe
         # a clause may span several lines; its `//#label` sits on the last one: give it to all of them
         group_label = {}
         start = 0
+        depth_ = 0
         for k, cl in enumerate(lines_):
             code, label, cprops = _split_label(cl, props)
+            depth_ += sum(code.count(c) for c in '([{') - sum(code.count(c) for c in ')]}')
+            if depth_ > 0 and label is None:
+                continue
             if label is not None or code.rstrip().endswith(',') or code.rstrip().endswith(';') or code.strip() in ('invariant', 'invariant_except_break', 'ensures', 'decreases', 'requires', '}'):
                 for j in range(start, k + 1):
                     group_label[j] = (label, cprops) if label is not None else None
@@ -1379,6 +1442,26 @@ def emit_fn_text(unit, rel, path, fn_id, text, line0, end_line, dlines, tmpl_whe
             inserts.append((1, 'hint', sec[2], 'start'))
         elif kind == 'atend':
             inserts.append((len(body.rstrip()) - 1, 'hint', sec[2], 'end'))
+    # an aid that uses a ghost variable declared by an aid that has no place any more is left out as well
+    lost_names = set()
+    for sec in sections:
+        if sec[0] in ('loop', 'before', 'after') and not any(ins[2] is sec[2] for ins in inserts):
+            for l_ in sec[2]:
+                lost_names.update(re.findall(r'\blet\s+ghost\s+(?:mut\s+)?([A-Za-z_]\w*)', l_))
+    changed = bool(lost_names)
+    while changed:
+        changed = False
+        for ins in list(inserts):
+            if ins[1] not in ('hint', 'invariant'):
+                continue
+            txt = '\n'.join(ins[2])
+            if any(re.search(r'(?<![\w.])%s\b' % re.escape(nm), txt) for nm in lost_names):
+                inserts.remove(ins)
+                unit.lost_aids.append({'fn': fn_id, 'aid': 'aid at `%s` (uses a ghost variable of an aid that has no place)' % ins[3]})
+                new_names = set(re.findall(r'\blet\s+ghost\s+(?:mut\s+)?([A-Za-z_]\w*)', txt)) - lost_names
+                if new_names:
+                    lost_names |= new_names
+                changed = True
     for sec in sections:
         if sec[0] == 'loopiter':
             # Verus syntax for naming the ghost iterator of a for loop: `for x in it: expr`
